@@ -558,8 +558,10 @@ def run(ctx: Ctx):
     ctx.log(f"{len(cases)} fault-injection cases")
     mism, viol, pairs = correspondence(ctx, cases)
     record(ctx, mism, viol, pairs)
+    confirm_new(ctx)
     if ctx.broken and not new_violations(ctx):
         search(ctx)
+        confirm_new(ctx)
 
 
 def record(ctx, mism, viol, pairs):
@@ -604,6 +606,51 @@ def record(ctx, mism, viol, pairs):
 def new_violations(ctx: Ctx):
     fs = core.load_findings(ctx.prop)
     return [v for v in ctx.violations if not any(core.finding_matches(e, v) for e in fs)]
+
+
+def confirm_new(ctx: Ctx, per_class=3, classes=12):
+    """A VIOLATION line with a replay file claims a concrete failing input: a behavioural fact. Every violation of
+    this module is the specification (evaluated in Coq) judging what one run of the implementation did - never
+    something read off the translated tables (those only produce broken obligations, which go through the search
+    and end as `no-failing-input-found`). This step makes the claim reproducible as well: the cases of every NEW
+    class of violation (signature x clause, as core.finish groups them) are run once more; only those that violate
+    the same clause again are kept, and they come first in their class. A class none of whose cases violates again
+    becomes a broken correspondence obligation (no concrete input is claimed for it)."""
+    fs = core.load_findings(ctx.prop)
+    known = [v for v in ctx.violations if any(core.finding_matches(e, v) for e in fs)]
+    new = [v for v in ctx.violations if not any(core.finding_matches(e, v) for e in fs)]
+    if not new:
+        return
+    by_class: dict[str, list] = {}
+    for v in new:
+        by_class.setdefault(json.dumps(v.sig, sort_keys=True) + v.clause, []).append(v)
+    todo = []
+    for key in list(by_class)[:classes]:
+        todo += by_class[key][:per_class]
+    if all(id(v) in CONFIRMED for v in todo):
+        return
+    _, viol, _ = correspondence(ctx, [v.case for v in todo], tag="v" + str(len(CONFIRMED)), confirm=False)
+    again = {(json.dumps(slim(c), sort_keys=True), CLAUSE.get(code, f"code{code}")) for c, _, code in viol}
+    kept, lost = [], 0
+    for key in list(by_class)[:classes]:
+        ok = [v for v in by_class[key][:per_class] if (json.dumps(v.case, sort_keys=True), v.clause) in again]
+        for v in ok:
+            CONFIRMED.add(id(v))
+        if ok:
+            kept += ok
+        else:
+            lost += 1
+            v = by_class[key][0]
+            ctx.broken.append(Broken("correspondence", f"{v.clause}: observed once, not on the second run of the same case",
+                                     v.what, v.case))
+    ctx.cov["violation_classes_confirmed_by_second_run"] = len([1 for k in list(by_class)[:classes]]) - lost
+    ctx.cov["violation_classes_not_reproduced"] = ctx.cov.get("violation_classes_not_reproduced", 0) + lost
+    ctx.log(f"{len(by_class)} new class(es) of violation: {len(kept)} case(s) confirmed by a second run, "
+            f"{lost} class(es) not reproduced")
+    ctx.violations[:] = known + kept
+
+
+CONFIRMED: set = set()
 
 
 def search(ctx: Ctx):
